@@ -4,7 +4,7 @@
    (requests, announcements, reservations, accept steps, successes, failures, disconnects,
    cancellations, requester wake-ups; any number of peers and requesters, any interleaving). *)
 From Coq Require Import ZArith List.
-From EC Require Import Model.Fetch Proofs.FetchProofs.
+From EC Require Import Model.Fetch Proofs.FetchProofs Proofs.FetchProgress Proofs.FetchUnique Model.Fetcher Proofs.FetcherProofs.
 Import ListNotations.
 Open Scope Z_scope.
 
@@ -121,6 +121,128 @@ Theorem C19_replay_states_reachable : forall s np nr x s' b,
   reachable s -> replay_step s np nr x = ROk s' b -> reachable s'.
 Proof. exact replay_step_reachable. Qed.
 Print Assumptions C19_replay_states_reachable.
+
+(* ---------------------------------------------------------------------------------------- *)
+(* Progress (liveness in bounded form).  [cond p n s]: n is the lowest queued number, connection p
+   is alive, announces n and is inside accept_block or has a reserved call.  [pmove p a]: a is a
+   move of p's acceptor.  [obumps p s l]: watch version bumps made by anybody else along l.
+   [all_cond p n s l]: cond holds in every state of the execution l from s.
+   [kfair p k 0 l]: p's acceptor moves at least once in any k consecutive actions of l. *)
+
+(* while the condition holds p's acceptor is never blocked (so weak fairness schedules it) ... *)
+Theorem C19_lowest_always_has_a_move : forall p n s, reachable s -> cond p n s ->
+  exists a s', pmove p a = true /\ step s a = Some s'.
+Proof. exact p_never_stuck. Qed.
+Print Assumptions C19_lowest_always_has_a_move.
+
+(* ... and in ANY execution (all other processes and the environment adversarial) it makes at most
+   5 moves plus one per version bump by others before the condition ends, i.e. before n leaves the
+   queue (handed over / cancelled) or a lower request arrives ... *)
+Theorem C19_lowest_served_bounded : forall p n l s s', all_cond p n s l -> run s l = Some s' ->
+  (pmoves p l <= 5 + obumps p s l)%nat.
+Proof. exact lowest_served_bounded. Qed.
+Print Assumptions C19_lowest_served_bounded.
+
+(* ... so under k-bounded fairness the condition cannot last k * (6 + B) steps. *)
+Theorem C19_lowest_served_within : forall p n k l s s', all_cond p n s l -> run s l = Some s' ->
+  kfair p k 0 l -> (0 < k)%nat -> (length l < k * (6 + obumps p s l))%nat.
+Proof. exact lowest_served_within. Qed.
+Print Assumptions C19_lowest_served_within.
+
+(* the move that ends it, when it is p's: the call for n is owned by p *)
+Theorem C19_take_hands_over : forall p n s s', cond p n s ->
+  p_acc (s_peers s p) = AChosen n -> step s (ATake p) = Some s' ->
+  exists c, qlookup n (s_q s) = Some c /\ held_by s' p n c /\ qlookup n (s_q s') = None.
+Proof. exact p_take_hands_over. Qed.
+Print Assumptions C19_take_hands_over.
+
+(* no starvation by higher requests: inserting a number above the lowest one changes neither the
+   lowest number, nor the watch version, nor any acceptor *)
+Theorem C19_higher_requests_do_not_delay : forall s r m att n0 s',
+  r_st (s_reqs s r) = RInsert m att -> qmin (s_q s) = Some n0 -> n0 < m ->
+  step s (RIns r) = Some s' ->
+  s_ver s' = s_ver s /\ qmin (s_q s') = Some n0 /\
+  (forall q, p_acc (s_peers s' q) = p_acc (s_peers s q)).
+Proof. exact higher_insert_silent. Qed.
+Print Assumptions C19_higher_requests_do_not_delay.
+
+(* after the hand-over: success completes the request (failure: C19_dropped_request_requeues) *)
+Theorem C19_held_call_completes : forall s p i e l' r n att,
+  take_pth p i (s_held s) = Some (e, l') -> h_chan e = (r, att) ->
+  r_st (s_reqs s r) = RWait n att ->
+  exists s1 s2, step s (ESucceed p i) = Some s1 /\ step s1 (RWakeSent r) = Some s2 /\
+                r_st (s_reqs s2 r) = RDone true.
+Proof. exact held_call_completes. Qed.
+Print Assumptions C19_held_call_completes.
+
+(* ---------------------------------------------------------------------------------------- *)
+(* run_block_fetcher (Model/Fetcher.v).  [freachable limit q0 p0 s]: s is reached by any
+   interleaving of fetcher moves, blocks being queued (any route) and blocks being persisted, from
+   a fetcher started with max_block_queue_size = limit when queued.next = q0, persisted.next = p0. *)
+
+Theorem C19_fetcher_one_live_request_per_number : forall limit q0 p0 s,
+  freachable limit q0 p0 s -> NoDup (live s).
+Proof. intros. eapply one_live_request_per_number, freachable_inv; eassumption. Qed.
+Print Assumptions C19_fetcher_one_live_request_per_number.
+
+(* every number is requested at most once ever: the numbers for which requests are started along
+   any execution are consecutive, increasing *)
+Theorem C19_fetcher_requests_consecutive : forall l s s', frun s l = Some s' ->
+  f_next s <= f_next s' /\ spawned s l = zrange (f_next s) (Z.to_nat (f_next s' - f_next s)).
+Proof. exact spawned_consecutive. Qed.
+Print Assumptions C19_fetcher_requests_consecutive.
+
+(* live requests stay inside the window of `limit` numbers above the persisted head *)
+Theorem C19_fetcher_window : forall limit q0 p0 s n, freachable limit q0 p0 s -> In n (live s) ->
+  f_start s <= n < Z.max (f_pnext s) (f_start s) + Z.of_nat (f_limit s).
+Proof. intros. eapply live_in_window; [eapply freachable_inv; eassumption|assumption]. Qed.
+Print Assumptions C19_fetcher_window.
+
+(* a request for a number that got queued by another route is cancelled by an enabled move ... *)
+Theorem C19_fetcher_cancels_queued : forall limit q0 p0 s n, freachable limit q0 p0 s ->
+  In n (live s) -> n < f_qnext s ->
+  exists s', fstep s (FQueued n) = Some s' /\ ~ In n (live s').
+Proof. intros. eapply queued_number_request_is_cancelled; [eapply freachable_inv; eassumption|assumption|assumption]. Qed.
+Print Assumptions C19_fetcher_cancels_queued.
+
+(* ... so at rest there is exactly one live request for each number that is not yet queued inside
+   [persisted.next, persisted.next + limit), and none for a queued number *)
+Theorem C19_fetcher_at_rest : forall limit q0 p0 s, freachable limit q0 p0 s -> fquiescent s ->
+  (0 < f_limit s)%nat ->
+  f_next s = Z.max (f_pnext s) (f_start s) + Z.of_nat (f_limit s) /\
+  forall n, In n (live s) <-> f_qnext s <= n < f_next s.
+Proof. intros. eapply quiescent_requests_exact; [eapply freachable_inv; eassumption|assumption|assumption]. Qed.
+Print Assumptions C19_fetcher_at_rest.
+
+(* link between the two models: [oreach s] = reachable when the environment starts a request for n
+   only while nobody requests n (what run_block_fetcher guarantees: C19_fetcher_requests_consecutive,
+   each number is requested once).  Then `request` never overrides an entry and a cancellation
+   removes only its own entry, i.e. the documented "unsupported" case cannot arise. *)
+Theorem C19_no_override_under_fetcher_contract : forall s r n att, oreach s ->
+  r_st (s_reqs s r) = RInsert n att -> qlookup n (s_q s) = None.
+Proof. exact no_override. Qed.
+Print Assumptions C19_no_override_under_fetcher_contract.
+
+Theorem C19_cancel_removes_own_entry_only : forall s r n att c, oreach s ->
+  r_st (s_reqs s r) = RWait n att -> qlookup n (s_q s) = Some c -> c = (r, att).
+Proof. exact cancel_removes_own_entry_only. Qed.
+Print Assumptions C19_cancel_removes_own_entry_only.
+
+(* tie: the simulation compared with the real run_block_fetcher only takes steps of the model and
+   stops in a state where no fetcher move is enabled *)
+Theorem C19_fetcher_sim_sound : forall s s', sim_step s = Some s' -> exists a, fstep (fs s) a = Some (fs s').
+Proof. exact sim_step_is_fstep. Qed.
+Print Assumptions C19_fetcher_sim_sound.
+Theorem C19_fetcher_sim_rest : forall fuel s s', finv (fs s) -> Fetcher.settle fuel s = (s', true) -> fquiescent (fs s').
+Proof. exact settle_quiescent. Qed.
+Print Assumptions C19_fetcher_sim_rest.
+
+Example C19_fetcher_nonvacuous :
+  match frun (finit 3 5 5) [FSpawn; FSpawn; FSpawn; EQueue; FQueued 5; EQueue; FQueued 6; EPersist; FDone 5; FSpawn] with
+  | Some s => live s = [7; 8] /\ f_next s = 9 /\ f_qnext s = 7 /\ f_pnext s = 6
+  | None => False
+  end.
+Proof. vm_compute. repeat split. Qed.
 
 (* override_documented: "concurrent calls for the same resource number are unsupported - second call
    will override the first call".  Two requesters for block 5 can knock each other out of the queue
